@@ -264,15 +264,17 @@ fn run_fsrc(seed: u64) -> Result<u64, Fail> {
     let _ = std::fs::remove_dir_all(&dir);
     std::fs::create_dir_all(&dir).unwrap();
     let path = dir.join("data.f32");
-    // sizes around the BufReader buffer (8 KiB = 2048 samples), around the stream capacity (1 024 000) and tiny
-    let nsamp = [0usize, 1, 5, 2047, 2048, 2049, 10_000, 300_000, 1_100_000][rng.below(9)];
-    let extra = rng.below(4); // 0..3 trailing bytes of a partial sample
-    let repeat = if nsamp > 100_000 { [1u64, 2][rng.below(2)] } else { [0u64, 1, 2, 3, 5][rng.below(5)] };
+    // sizes around the BufReader buffer (8 KiB = 2048 samples), around the stream capacity (1 024 000) and tiny; trailing
+    // bytes of a partial sample; repeat counts; drain styles -- a fixed table, so that every base seed covers all of it
+    const CONFIGS: [(usize, usize, u64, usize); 12] = [
+        (0, 0, 1, 0), (1, 3, 3, 1), (5, 1, 0, 0), (2047, 0, 2, 1), (2048, 2, 5, 3), (2049, 0, 1, 1), (10_000, 1, 3, 3),
+        (300_000, 0, 2, 1), (1_100_000, 0, 2, 2), (1_100_000, 3, 1, 1), (300_000, 2, 1, 2), (1_100_000, 0, 1, 3),
+    ];
+    let (nsamp, extra, repeat, style) = CONFIGS[(seed % 1000) as usize % 12];
     let samples: Vec<Float> = (0..nsamp).map(|i| (i as Float) * 0.5 - 3.0).collect();
     let mut bytes: Vec<u8> = samples.iter().flat_map(|v| v.to_le_bytes()).collect();
     bytes.extend(std::iter::repeat(0xee).take(extra));
     std::fs::write(&path, &bytes).unwrap();
-    let style = (seed % 4) as usize;
     let params = format!("samples={nsamp} trailing_bytes={extra} repeat={repeat} drain_style={style}");
     let res = (|| -> Result<u64, Fail> {
         let (mut src, out) = match FileSource::<Float>::new(&path) {
